@@ -6,12 +6,11 @@
    the restore of a new incarnation, each at ANY position — is executed by the model with configuration [c]
    ([None] only when an allocator answer supplied with a [New] is not a free pool address).
    Configuration flags (variants): [c_ordered] — writes and deletes of one session take effect in issue order
-   (/repo HEAD since 657fd59, pkg/opdb/ordered.go; false = the behaviour before the fix, kept for the _refuted
-   witnesses); [c_reserve] — PPPoE restore re-reserves addresses (HEAD since 7da5674); [c_delretry] — a checkpoint
-   Delete that fails is repeated until it succeeds (NOT in HEAD: known finding delete-error-ignored, fix proposed).
-   /repo HEAD is [c_ordered = true, c_reserve = true, c_delretry = false]: every theorem below holds for HEAD on all
-   histories without a failing Delete ([RelF]); with one, [C12_released_stay_gone_delete_fault_refuted] applies. *)
-From OV Require Import Common.Base C12.Model C12.Proofs C12.Window C12.OWModel C12.OWProofs.
+   (/repo HEAD since 657fd59, pkg/opdb/ordered.go); [c_reserve] — PPPoE restore re-reserves addresses (HEAD since
+   7da5674); [c_delretry] — a checkpoint Delete that fails is repeated until it succeeds (HEAD since f3eb7c5,
+   OrderedWriter.DeleteEventually).  /repo HEAD is [repaired p …] = all three true; no C12 finding is open.  The
+   false values are the behaviour before the respective fix and are kept only for the _refuted witnesses. *)
+From OV Require Import Common.Base C12.Model C12.Proofs C12.Window C12.OWModel C12.OWProofs C12.SQModel.
 Open Scope N_scope.
 
 (* Released sessions stay gone: for every history, every completion order of the checkpoint writes and every crash
@@ -44,7 +43,7 @@ Print Assumptions C12_released_stay_gone_faults.
 
 (* the code before 657fd59 violated it: the Put of a checkpoint completes after the Delete of the same session *)
 Theorem C12_released_stay_gone_refuted :
-  exists p ops s, run (today p 4 4 2) init ops = Some s /\ In 0 (released s) /\ aget 0 (live s) <> None /\
+  exists p ops s, run (before_fixes p 4 4 2) init ops = Some s /\ In 0 (released s) /\ aget 0 (live s) <> None /\
                   aget 0 (store s) <> None.
 Proof.
   exists IPoE, [New (est 0) (Some 0) None None; Ck 0; Rel 0; Done 0 false; Crash true None 0%Z].
@@ -53,13 +52,13 @@ Qed.
 Print Assumptions C12_released_stay_gone_refuted.
 
 (* A release whose checkpoint Delete fails.  [Forall (delok c) ops] (hypothesis of the theorem above): the
-   configuration repeats a failed Delete until it succeeds ([c_delretry], the proposed repair), OR the history
-   contains no failing Delete ([RelF]) — the latter is how the theorem applies to /repo HEAD.  /repo HEAD only logs the Store error
-   (deleteSessionCheckpoint): the image stays in the store and the released session is restored after a restart. *)
-Definition head_cfg (p : proto) : cfg :=
+   configuration repeats a failed Delete until it succeeds ([c_delretry]: /repo HEAD since f3eb7c5), or the history
+   contains no failing Delete ([RelF]).  Before f3eb7c5 deleteSessionCheckpoint only logged the Store error: the image
+   stayed in the store and the released session was restored after a restart (historical witness). *)
+Definition no_delretry_cfg (p : proto) : cfg :=
   {| c_proto := p; c_ordered := true; c_reserve := true; c_delretry := false; c_n4 := 4; c_n6 := 4; c_npd := 2 |}.
 Theorem C12_released_stay_gone_delete_fault_refuted :
-  exists p ops s, run (head_cfg p) init ops = Some s /\ In 0 (released s) /\ aget 0 (live s) <> None /\
+  exists p ops s, run (no_delretry_cfg p) init ops = Some s /\ In 0 (released s) /\ aget 0 (live s) <> None /\
                   aget 0 (store s) <> None.
 Proof.
   exists PPPoE, [New (est 0) (Some 0) None None; Cks 0; RelF 0; Crash true None 0%Z].
@@ -67,14 +66,14 @@ Proof.
 Qed.
 Print Assumptions C12_released_stay_gone_delete_fault_refuted.
 
-(* non-vacuity of the hypothesis for /repo HEAD ([c_delretry = false]): a history without [RelF] — with releases,
+(* non-vacuity of the weaker disjunct of [delok] (a configuration WITHOUT delete retry): a history without [RelF] — with releases,
    reordered completions, a failed Put, a stop inside a release and restarts — satisfies it *)
 Example C12_head_hypotheses_nonvacuous :
   let ops := [New (est 0) (Some 0) None None; New (est 1) (Some 1) None None; Ck 0; Ck 1; Poison 1 false; Rel 0;
               Done 1 false; Done 0 false; Cks 1; RelStop 1 true true None 0%Z; Crash false None 0%Z] in
-  c_ordered (head_cfg IPoE) = true /\ Forall (delok (head_cfg IPoE)) ops /\ reserves (head_cfg IPoE) /\
-  pools_small (head_cfg IPoE) /\
-  exists s, run (head_cfg IPoE) init ops = Some s /\ released s = [0] /\ aget 0 (live s) = None /\
+  c_ordered (no_delretry_cfg IPoE) = true /\ Forall (delok (no_delretry_cfg IPoE)) ops /\ reserves (no_delretry_cfg IPoE) /\
+  pools_small (no_delretry_cfg IPoE) /\
+  exists s, run (no_delretry_cfg IPoE) init ops = Some s /\ released s = [0] /\ aget 0 (live s) = None /\
             (exists r, aget 1 (live s) = Some r /\ s_v4 r = Some 1).
 Proof.
   cbn zeta. split; [reflexivity|]. split; [repeat constructor; right; exact I|]. split; [left; reflexivity|].
@@ -277,6 +276,28 @@ Example C12_writer_nonvacuous :
 Proof. vm_compute. repeat split. Qed.
 Print Assumptions C12_writer_nonvacuous.
 
+(* The Store contract every theorem above takes for granted (one store operation = one atomic step that either takes
+   effect and reports success, or reports an error and changes nothing) — made explicit for the sqlite store: even
+   with the database write lock held by another connection for some or all of the retry attempts, a data operation
+   that returns nil has taken effect and one that returns an error has left the data unchanged.  Tied to the real
+   pkg/opdb/sqlite store by the `sq` harness (temp-file database, second connection holding BEGIN IMMEDIATE). *)
+Theorem C12_store_contract :
+  forall s o s' r, sq_step s o = (s', r) ->
+  match r with
+  | Some true => sq_data s' = sq_effect o (sq_data s)
+  | Some false => sq_data s' = sq_data s
+  | None => sq_data s' = sq_data s
+  end.
+Proof. exact sq_contract. Qed.
+Print Assumptions C12_store_contract.
+
+Example C12_store_contract_nonvacuous :
+  let run := fold_left (fun a o => let '(s, rs) := a in let '(s', r) := sq_step s o in (s', rs ++ [r])) in
+  let '(s, rs) := run [SPut 1 7; SLock; SDel 1; SPut 2 9; SDelR 1; SLock; SUnlock; SPut 2 9] (sq_init, []) in
+  rs = [Some true; None; Some false; Some false; Some true; None; None; Some true] /\ sq_data s = [(2, 9)]%N.
+Proof. vm_compute. split; reflexivity. Qed.
+Print Assumptions C12_store_contract_nonvacuous.
+
 (* Addresses are reserved again before any new subscriber can be allocated one.  For every history (any completion
    order, crashes and restores anywhere — so in particular in the state right after a restart and at every later
    point) under the repaired write order, for IPoE or for PPPoE with the reservation in installInMemoryState:
@@ -326,7 +347,7 @@ Print Assumptions C12_reserved_before_alloc_refuted.
 (* the unordered write discipline (before 657fd59) also lets an older image overwrite a newer one: the restored session carries the stamp
    of checkpoint 0 although checkpoint 1 had completed *)
 Theorem C12_latest_image_refuted :
-  exists ops s r, run (today IPoE 4 4 2) init ops = Some s /\ aget 0 (live s) = Some r /\ s_stamp r = Some 0.
+  exists ops s r, run (before_fixes IPoE 4 4 2) init ops = Some s /\ aget 0 (live s) = Some r /\ s_stamp r = Some 0.
 Proof.
   exists [New (est 0) (Some 0) None None; Ck 0; Ck 0; Done 1 false; Done 0 false; Crash true None 0%Z].
   eexists. eexists. split; [vm_compute; reflexivity|]. cbn. split; reflexivity.
